@@ -564,6 +564,14 @@ func c01Image(c *Ctx, cs Case, img []byte, cls string, positions []int) {
 				fail(fmt.Sprintf("changing covered byte %d does not change the digest", p), "unchanged", "changed", "")
 			}
 		case "excluded":
+			// A change of the directory entry's SIZE field that leaves the file a well-formed image (128 -> 0: the
+			// entry then locates no table) moves the former table bytes from the excluded to the covered part: the
+			// specification's own steps give another digest for that file, and the comparison with the independent
+			// rendering of those steps above has judged it. (Found by the thorough tier on the unchanged tree.)
+			if dd, _ := peOffsets(img); p >= dd+4 && p < dd+8 {
+				c.Count(fmt.Sprintf("%s@%d size-field", cs.Key(), p), false, "flip/excluded/size-field-relocates-the-table")
+				break
+			}
 			if changed {
 				fail(fmt.Sprintf("changing excluded byte %d changes the digest", p), "changed", "unchanged", "")
 			}
